@@ -267,7 +267,16 @@ var c08Protos = []string{"ip4hdr", "tcp4", "tcp6", "udp4", "udp6", "icmp4", "icm
 func c08Build(c *vlib.Ctx, r *vlib.Rand, proto string, payload []byte, id int) *c08Built {
 	src4, dst4 := net.IP(r.Bytes(4)), net.IP(r.Bytes(4))
 	src6, dst6 := net.IP(r.Bytes(16)), net.IP(r.Bytes(16))
-	ip4 := &layers.IPv4{Version: 4, TTL: byte(r.Range(1, 255)), TOS: r.Byte(), Id: r.U16(), SrcIP: src4, DstIP: dst4}
+	// callers hand IPv4 addresses over in either form (4 bytes, or the 16-byte form net.ParseIP / net.IPv4 return), and
+	// not necessarily the same one for both addresses
+	srcForm, dstForm := src4, dst4
+	if r.Chance(1, 3) {
+		srcForm = src4.To16()
+	}
+	if r.Chance(1, 3) {
+		dstForm = dst4.To16()
+	}
+	ip4 := &layers.IPv4{Version: 4, TTL: byte(r.Range(1, 255)), TOS: r.Byte(), Id: r.U16(), SrcIP: srcForm, DstIP: dstForm}
 	ip6 := &layers.IPv6{Version: 6, HopLimit: 64, TrafficClass: r.Byte(), FlowLabel: r.U32() & 0xfffff, SrcIP: src6, DstIP: dst6}
 	if id >= 0 {
 		ip4.Id = uint16(id)
